@@ -228,7 +228,18 @@ package pppoe
 //@ func (s *Server) expireSessions
 //@   modifies *
 //@   ghost acctStops mathint = 0
+//@   ghost pppRel mathint = 0
+//@   ghost pppRelID string = ""
+//@   ghost lastSession *Session = nil
 //@   ensures acctStops == 0
+
+// every session of the snapshot that is no longer registered under its id gets its address
+// released in its iteration, whatever state it was in (an address is held from PAP success on);
+// a session that is still registered is left alone
+//@ loop Server.expireSessions#1
+//@   iteration lastSession != session ==> pppRel == iter(pppRel) + 1
+//@   iteration lastSession != session ==> pppRelID == session.SessionID
+//@   iteration lastSession == session ==> pppRel == iter(pppRel)
 
 // ---- lcp.go: LCP option-negotiation automaton (C11) ----
 //
